@@ -29,6 +29,9 @@ func runC01(c *Ctx) {
 	ruleBorrow(c, "borrow-lifetime")
 	c10CopyOut(c)
 	rulePureCapture(c, "pure-capture")
+	ruleFmtStringer(c, "emit-all")
+	ruleNumberParsing(c, "cl-value", 1, "(*Message).GetHeaderInt")
+	ruleDatagramBuffer(c, "funnel")
 	c10Free(c)
 	c10Pool(c)
 	c10FreshMessage(c)
@@ -755,17 +758,32 @@ func c01ParseCapture(c *Ctx) {
 	}
 	c.check(okName, rule, "ParseMessage/name", w.ipos(ah), "name = line[0:index of first ':'] (pure substring)", "the header name stored is "+w.termKey(name)+": not the untouched text before the first colon (letter case or content altered)")
 	okVal := false
-	if ts := w.resultOfCallTo(value, "strings.TrimSpace", 0); ts != nil {
-		if sl, ok := strip(ts.Call.Args[0]).(*ssa.Slice); ok && isLine(sl.X) && sl.High == nil && colon != nil && isPlusOne(sl.Low, colon) {
+	// the blanks removed around a value are SIP's: SP and HTAB. strings.TrimSpace also removes Unicode white space
+	// (U+00A0, U+0085, U+2003, U+3000 ...), which is part of a UTF-8 value
+	trimOf := func(v ssa.Value) (ssa.Value, bool, string) {
+		if ts := w.resultOfCallTo(v, "strings.Trim", 0); ts != nil {
+			if cut, isC := constString(ts.Call.Args[1]); isC && cut != "" && strings.Trim(cut, " \t\r\n") == "" && strings.Contains(cut, " ") && strings.Contains(cut, "\t") {
+				return ts.Call.Args[0], true, ""
+			}
+			return ts.Call.Args[0], false, "strings.Trim with cutset " + w.termKey(ts.Call.Args[1])
+		}
+		if ts := w.resultOfCallTo(v, "strings.TrimSpace", 0); ts != nil {
+			return ts.Call.Args[0], false, "strings.TrimSpace, which also strips Unicode white space (NBSP, NEL, EM SPACE, IDEOGRAPHIC SPACE ...) that belongs to a UTF-8 value"
+		}
+		return nil, false, "no trimming of SP/HTAB"
+	}
+	trimmed, trimOK, trimWhy := trimOf(value)
+	if trimmed != nil && trimOK {
+		if sl, ok := strip(trimmed).(*ssa.Slice); ok && isLine(sl.X) && sl.High == nil && colon != nil && isPlusOne(sl.Low, colon) {
 			okVal = true
 		}
 	}
-	if ts := w.resultOfCallTo(value, "strings.TrimSpace", 0); ts != nil && cut != nil {
-		if isResultOf(ts.Call.Args[0], cut, 1) {
+	if trimmed != nil && trimOK && cut != nil {
+		if isResultOf(trimmed, cut, 1) {
 			okVal = true
 		}
 	}
-	c.check(okVal, rule, "ParseMessage/value", w.ipos(ah), "value = TrimSpace(line[colon+1:])", "the header value stored is "+w.termKey(value)+": expected strings.TrimSpace of everything after the first colon and nothing else")
+	c.check(okVal, rule, "ParseMessage/value", w.ipos(ah), "value = everything after the first colon with surrounding SP/HTAB removed", "the header value stored is "+w.termKey(value)+": expected everything after the first colon with only surrounding SP and HTAB removed ("+trimWhy+")")
 	c.check(strip(callArg(ah, -1)) == strip(w.msgUnderConstruction(f)), rule, "ParseMessage/target", w.ipos(ah), "headers are added to the message being built", "AddHeader is applied to another message")
 	// one AddHeader per header line: within one loop iteration on the header branch
 	if colon != nil {
